@@ -30,8 +30,27 @@
       closure is its own object).
   `C01_run_no_panic_from`: the same from any well-formed lexer whose positions are character
   boundaries and any world whose registered closures agree with the grammar's.
+  Error reports (the clause "converting any returned or collected error into a source report and
+  formatting it never panics"):
+  `C01_report_total`: for a source with offset zero over a well-formed text, and any error all of
+  whose span / position fields are canonical positions of that text (`ErrP (Spec.isCanon m t ·)`:
+  aligned character boundaries carrying their canonical line and column; a count error reports
+  fewer items than its minimum) with start ≤ end (`ErrWF`), the model of
+  `ParseError::into_source_error` (`Report.reportOf`: message, span display built by
+  `SpanDisplay::new` from the error's span, error-type highlights with their messages; `Display`
+  text as the message for errors of other types such as a wrapper pushed by a context transform)
+  succeeds and writing the report does not panic — `renderError` is the plain rendering compared
+  with the implementation on every grammar-level case (`report=` / `sinkreport=` fields);
+  `C01_report_total_any` is the same for any painter, colour on or off.
+  `C01_run_report_total_from` / `C01_run_report_total`: every error `run` returns or sends to the
+  sink — any grammar, fuel, context; any scanner that maps canonical positions to canonical
+  positions — renders without panic (by `C13_spans_from_lexer` / `C03_run_spans` and
+  `C13_start_le_end`).  `C01_harness_report_total`: the harness scanners satisfy that hypothesis.
+  The hypothesis on count errors is necessary: `RepeatCountError { found ≥ expected_min,
+  expected_max: None }` (never built by the library, but its fields are public) panics in
+  `expected_description` (`expect("get max item count")`) — `C01_count_report_panics`.
   Still carried by the `nopanic` family and the panic checks run on every grammar-level case:
-  the renderer (see C16) and the lexer `Display`.
+  the lexer `Display`.
 -/
 import TephraProps.C18
 import TephraProps.C19
@@ -43,6 +62,8 @@ import TephraProofs.NoPanicAll
 import TephraProofs.BracketRefine
 import TephraProofs.LexInv
 import TephraProofs.Termination
+import TephraProofs.ReportTotal
+import TephraProofs.ScanClosed
 
 namespace Tephra.Props
 open Tephra
@@ -164,5 +185,99 @@ example : (run ⟨tabEnv [2, 1, 3, 1, 5], []⟩ 9 (.both (.recover 1 7 .empty (.
     Lexer.next, Lexer.bufferNext, Lexer.bufferLoop, Lexer.filtered, Lexer.setRecoverState, Lexer.intoSublexer,
     Lexer.startSublex, Lexer.isEmpty, tabEnv, scanTab, Pos.zero, Ctx.apply, Ctx.withoutSink, hiBelow, hiReached,
     Lexer.parseSpan, Lexer.tokenSpan, Span.enclosing]
+
+/-! ### error reports -/
+
+/-- **C01, report clause.**  Converting an error whose spans are canonical in-bounds spans of the
+text into a source report and formatting it (colour disabled) never panics. -/
+theorem C01_report_total (m : Metrics) (_htab : 1 ≤ m.tab) (t : Text) (hwf : Text.WF t)
+    (E : Report.Env) (e : PErr)
+    (hcanon : ErrP (fun p => Spec.isCanon m t p = true) e.body) (hle : ErrWF e.body) :
+    Report.renderError ⟨t, m, Pos.zero⟩ E e ≠ .panic := by
+  obtain ⟨s, hs⟩ := ReportPf.renderError_ok m t hwf E e hcanon hle
+  rw [hs]; simp
+
+/-- The same in two steps, for any painter and colour enablement: the conversion succeeds and the
+report it yields is written without panic. -/
+theorem C01_report_total_any (paint : Render.Style → String → String) (color : Bool)
+    (m : Metrics) (_htab : 1 ≤ m.tab) (t : Text) (hwf : Text.WF t) (E : Report.Env) (e : PErr)
+    (hcanon : ErrP (fun p => Spec.isCanon m t p = true) e.body) (hle : ErrWF e.body) :
+    ∃ cd, Report.reportOf ⟨t, m, Pos.zero⟩ E e = .ok cd ∧
+      Render.writeCodeDisplay paint ⟨t, m, Pos.zero⟩ { cd with colorEnabled := color } ≠ .panic := by
+  obtain ⟨cd, hcd, s, hs⟩ := ReportPf.reportOf_ok paint color m t hwf E e hcanon hle
+  exact ⟨cd, hcd, by rw [hs]; simp⟩
+
+/-- Every error `run` returns or sends to the sink renders without panic: from any lexer whose
+stored positions are canonical positions of the text and a world whose logged errors are such,
+over any scanner that maps canonical positions to canonical positions. -/
+theorem C01_run_report_total_from (R : RunEnv) (m : Metrics) (_htab : 1 ≤ m.tab) (hwf : Text.WF R.text)
+    (E : Report.Env) (n : Nat) (g : G) (lx : Lx) (ctx : Ctx) (W : World) (hm : lx.metrics = m)
+    (hc : Closed R.E (fun p => Spec.isCanon m R.text p = true) m)
+    (hp : PosOK (fun p => Spec.isCanon m R.text p = true) lx)
+    (hW : ∀ e ∈ W.log, ErrP (fun p => Spec.isCanon m R.text p = true) e.body ∧ ErrWF e.body) :
+    (∀ e, (run R n g lx ctx W).1 = .err e → Report.renderError ⟨R.text, m, Pos.zero⟩ E e ≠ .panic) ∧
+    (∀ e ∈ (run R n g lx ctx W).2.log, Report.renderError ⟨R.text, m, Pos.zero⟩ E e ≠ .panic) := by
+  have h1 := RunSpans.run_spans R _ n g lx ctx W (hm ▸ hc) hp (fun e he => (hW e he).1)
+  have h2 := RunSpans.run_wf R n g lx ctx W (fun e he => (hW e he).2)
+  exact ⟨fun e he => C01_report_total m _htab R.text hwf E e (h1.2.1 e he) (h2.2.1 e he),
+    fun e he => C01_report_total m _htab R.text hwf E e (h1.2.2 e he) (h2.2.2 e he)⟩
+
+/-- … in particular from a fresh lexer and the initial world. -/
+theorem C01_run_report_total (R : RunEnv) (m : Metrics) (_htab : 1 ≤ m.tab) (hwf : Text.WF R.text)
+    (hc : Closed R.E (fun p => Spec.isCanon m R.text p = true) m)
+    (E : Report.Env) (s0 len n : Nat) (g : G) (ctx : Ctx) :
+    (∀ e, (run R n g (Lexer.new s0 m len) ctx World.init).1 = .err e →
+      Report.renderError ⟨R.text, m, Pos.zero⟩ E e ≠ .panic) ∧
+    (∀ e ∈ (run R n g (Lexer.new s0 m len) ctx World.init).2.log,
+      Report.renderError ⟨R.text, m, Pos.zero⟩ E e ≠ .panic) := by
+  have h0 : Spec.isCanon m R.text Pos.zero = true :=
+    (MeasureCanon.isCanon_iff m R.text hwf Pos.zero).mpr
+      (MeasureCanon.canonCut_zero R.text _ (MeasureCanon.alignedAll_nil R.text m) m)
+  exact C01_run_report_total_from R m _htab hwf E n g _ ctx World.init rfl hc
+    (LexInv.new_pos h0 s0 m len) (by simp [World.init])
+
+/-- The harness scanners (every configuration) over any well-formed text: no scanner hypothesis. -/
+theorem C01_harness_report_total (cfg : ScanCfg) (t : Text) (hwf : Text.WF t) (m : Metrics) (_htab : 1 ≤ m.tab)
+    (E : Report.Env) (s0 len n : Nat) (g : G) (ctx : Ctx) :
+    (∀ e, (run ⟨lexEnv cfg t, t⟩ n g (Lexer.new s0 m len) ctx World.init).1 = .err e →
+      Report.renderError ⟨t, m, Pos.zero⟩ E e ≠ .panic) ∧
+    (∀ e ∈ (run ⟨lexEnv cfg t, t⟩ n g (Lexer.new s0 m len) ctx World.init).2.log,
+      Report.renderError ⟨t, m, Pos.zero⟩ E e ≠ .panic) :=
+  C01_run_report_total ⟨lexEnv cfg t, t⟩ m _htab hwf (ScanClosed.scanText_closed_isCanon cfg t hwf m)
+    E s0 len n g ctx
+
+/-- The count clause of the hypothesis is necessary: a count error whose `found` is not below its
+minimum and that has no maximum cannot be described (`expect("get max item count")`). -/
+theorem C01_count_report_panics (src : Source) (E : Report.Env) (sp : Span) (trail : List Nat) :
+    Report.renderError src E ⟨trail, .count sp 1 1 none⟩ = .panic := by
+  simp [Report.renderError, Report.reportOf, Report.ownReport, Report.defaultReport, Report.displayErr,
+    Report.displayBody, Report.countDescription]
+
+/-- the text `a⏎b` -/
+private def repText : Text := [⟨97, 1, 1⟩, ⟨10, 1, 0⟩, ⟨98, 1, 1⟩]
+
+/-- Non-vacuity of `C01_report_total`: a mismatched-brackets error whose two spans lie on
+different lines, and a tagged boundary error, satisfy the hypotheses. -/
+example : Text.WF repText ∧
+    ErrP (fun p => Spec.isCanon ⟨.lf, 4⟩ repText p = true)
+      (.bracketMismatch ⟨⟨0, 0, 0⟩, ⟨1, 0, 1⟩⟩ ⟨⟨2, 1, 0⟩, ⟨3, 1, 1⟩⟩) ∧
+    ErrWF (.bracketMismatch ⟨⟨0, 0, 0⟩, ⟨1, 0, 1⟩⟩ ⟨⟨2, 1, 0⟩, ⟨3, 1, 1⟩⟩) ∧
+    ErrP (fun p => Spec.isCanon ⟨.lf, 4⟩ repText p = true) (.boundary ⟨⟨0, 0, 0⟩, ⟨1, 0, 1⟩⟩ ⟨3, 1, 1⟩) ∧
+    ErrP (fun p => Spec.isCanon ⟨.lf, 4⟩ repText p = true) (.count ⟨⟨0, 0, 0⟩, ⟨2, 1, 0⟩⟩ 1 2 none) := by
+  refine ⟨by intro c hc; simp [repText] at hc; rcases hc with rfl | rfl | rfl <;> decide, ?_,
+    by simp [ErrWF, ErrQ], ?_, ?_⟩ <;>
+    simp [ErrP, ErrQ, SpanP, Spec.isCanon, Spec.canonAt, Spec.cutAt, splitAtByte, Spec.aligned, repText,
+      Spec.canon, Spec.canonFrom, Spec.linesOf, breakAt, lbCodes, stripCodes, Spec.colWidth, bytes, Pos.zero]
+
+/-- Non-vacuity of `C01_run_report_total`: `one(b)` on the text `a⏎b` fails with an error, over
+the plain harness scanner. -/
+example : (run ⟨lexEnv (ScanCfg.ofId 0) repText, repText⟩ 1 (.one 1) (Lexer.new 1 ⟨.lf, 4⟩ 3)
+    ⟨false, [], false⟩ World.init).1 =
+      .err ⟨[], .unexp ⟨Pos.zero, Pos.zero⟩ ⟨Pos.zero, ⟨1, 0, 1⟩⟩ (.token 1) (.token ⟨0, 0⟩)⟩ := by
+  simp only [run, Lexer.next, Lexer.new]
+  rw [Lexer.nextLoop]
+  simp [lexEnv, scanText, ScanCfg.ofId, repText, splitAtByte, kindOf, kWs, resOpt, Source.nextPosition,
+    Source.withByteOffset, Tephra.nextPosition, stepSuf, csub, breakAt, lbCodes, stripCodes, stepCh,
+    Source.sliceBytes, Lexer.filtered, Pos.zero, Lexer.parseSpan, Lexer.tokenSpan, Span.enclosing, mkErr]
 
 end Tephra.Props
